@@ -27,8 +27,9 @@ def classify(direction, m, what):
         return 'fifo-response-count'
     if direction == 'resp' and t == 'readFileRecord':
         return 'read-file-record-response-layout'
-    if direction == 'req' and t == 'diag' and what == 'dec' :
-        return 'diag-request-multiword'
+    if direction == 'req' and t == 'diag' and what == 'dec' and m['message']['k'] != 'int' and \
+            not (m['message']['k'] == 'list' and len(m['message']['ws']) == 1):
+        return 'diag-request-multiword'       # only a request whose data is not exactly one word
     return None
 
 
